@@ -49,7 +49,7 @@ fn p1_alphabet(n: usize, tier: Tier) -> Vec<Dev> {
                 true
             }));
         }
-        let lits: Vec<&str> = if tier == Tier::Quick { vec!["t", "tété tt", ""] } else { vec!["t", "tété tt", "", "éé", "a b", "0123456789abcdef"] };
+        let lits: Vec<&str> = if tier == Tier::Quick { vec!["t", "tété tt", "", "{{x}}"] } else { vec!["t", "tété tt", "", "éé", "a b", "0123456789abcdef", "{{x}}", "}}{{"] };
         for l in lits {
             d.push(dev(format!("v{}.to_string={:?}", i, l), &[&format!("tos{}", i)], move |s| {
                 s.variants[i].to_string = Some(l.to_string());
@@ -182,7 +182,7 @@ fn literals(names: &[&str], lmax: usize, cover_all: bool, forms_full: bool) -> V
             (0..FORMS.len()).map(|o| (0..arr.len()).map(|j| (o + j) % FORMS.len()).collect()).collect()
         };
         for fs in form_sets {
-            for sep in 0..4 {
+            for sep in 0..5 {
                 let mut l = String::new();
                 for (j, (&a, &f)) in arr.iter().zip(fs.iter()).enumerate() {
                     let ph = format!("{{{}{}}}", names[a], FORMS[f]);
@@ -198,6 +198,11 @@ fn literals(names: &[&str], lmax: usize, cover_all: bool, forms_full: bool) -> V
                             l.push_str("{{");
                             l.push_str(&ph);
                             l.push_str("}}");
+                        }
+                        4 => {
+                            // multi-byte text before the placeholder (byte offsets != char offsets)
+                            l.push_str("日é→");
+                            l.push_str(&ph);
                         }
                         _ => {
                             // escaped braces around a bare name / index: text, not a placeholder
